@@ -14,7 +14,7 @@ import (
 	"verif/harness/ref"
 )
 
-var gen = arith.Gen([]string{"quointeger"}, 60, false)
+var gen = arith.Gen([]string{"quointeger"}, 400, false)
 
 func check(c arith.Case, st *core.Stats) error {
 	if c.Y.IsZero() {
